@@ -6,8 +6,13 @@ use crate::Ctx;
 use serde_json::Value;
 
 pub mod c01;
+pub mod c02;
+pub mod c03;
 pub mod c04;
 pub mod c05;
+pub mod c06;
+pub mod c07;
+pub mod c12;
 pub mod c13;
 
 pub struct Prop {
@@ -28,8 +33,13 @@ fn no_assumptions() -> Vec<String> {
 pub fn lookup(id: &str) -> Option<Prop> {
     Some(match id {
         "C01" => Prop { id: "C01", run: c01::run, rule: c01::rule, exhaustive: |c| Some(c.thorough), assumptions: no_assumptions },
+        "C02" => Prop { id: "C02", run: c02::run, rule: c02::rule, exhaustive: none, assumptions: no_assumptions },
+        "C03" => Prop { id: "C03", run: c03::run, rule: c03::rule, exhaustive: none, assumptions: no_assumptions },
         "C04" => Prop { id: "C04", run: c04::run, rule: c04::rule, exhaustive: |_| Some(true), assumptions: no_assumptions },
         "C05" => Prop { id: "C05", run: c05::run, rule: c05::rule, exhaustive: none, assumptions: no_assumptions },
+        "C06" => Prop { id: "C06", run: c06::run, rule: c06::rule, exhaustive: none, assumptions: no_assumptions },
+        "C07" => Prop { id: "C07", run: c07::run, rule: c07::rule, exhaustive: none, assumptions: no_assumptions },
+        "C12" => Prop { id: "C12", run: c12::run, rule: c12::rule, exhaustive: |_| Some(true), assumptions: no_assumptions },
         "C13" => Prop { id: "C13", run: c13::run, rule: c13::rule, exhaustive: |_| Some(true), assumptions: no_assumptions },
         _ => return None,
     })
@@ -39,6 +49,12 @@ pub fn lookup(id: &str) -> Option<Prop> {
 pub fn replay(_id: &str, case: &Value) -> Option<Result<(), String>> {
     if let Some(c) = Check::from_json(case) {
         return Some(c.eval());
+    }
+    if let Some(r) = c07::replay(case) {
+        return Some(r);
+    }
+    if let Some(r) = c12::replay(case) {
+        return Some(r);
     }
     None
 }
